@@ -216,6 +216,14 @@ def run(ck: Check, prog: Program) -> None:
         d = compare_facts(title, ex(rs), ex(ra), allow_keys=('lookup',) if False else ())
         ck.ob('TWIN-FACTS', f'dispatchers: {title} facts equal', not d, sample={'facts_sync': ex(rs)} if title in ('errmap',) else None)
         diffs += [(f'dispatcher {title}', x) for x in d]
+    # both halves hand the same constructor options to the shared base class (an option one half drops is configured in vain there)
+    from .common import ctor_forwarding
+    fw_s, pr_s = ctor_forwarding(prog, rs.cls)
+    fw_a, pr_a = ctor_forwarding(prog, ra.cls)
+    d = compare_facts('ctor', {'forwarded': fw_s, 'problems': [m for _, m in pr_s]}, {'forwarded': fw_a, 'problems': [m for _, m in pr_a]})
+    ck.ob('TWIN-FACTS', 'dispatchers: the same constructor options are forwarded to the base class', not d,
+          sample={'forwarded_sync': fw_s, 'forwarded_async': fw_a})
+    diffs += [('dispatcher constructor', x) for x in d]
     d = compare_facts('batch', batch_facts(prog, rs)[0], batch_facts(prog, ra)[0], allow_keys=('joins', 'batch_call_sites', 'slot_call_sites'))
     ck.ob('TWIN-FACTS', 'dispatchers: batch facts equal (join kind and number of element call sites are declared asymmetries)', not d)
     diffs += [('dispatcher batch', x) for x in d]
